@@ -23,6 +23,7 @@ The `.pyx` twin is scanned textually for the ESCAPES-equivalent switch and repor
 from __future__ import annotations
 
 import ast
+import copy
 import re
 
 from harness.common import TranslateError, ast_digest, src_text
@@ -99,6 +100,136 @@ def _strip_doc(f: ast.FunctionDef) -> list[ast.stmt]:
     return body
 
 
+class _Subst(ast.NodeTransformer):
+    def __init__(self, env: dict[str, ast.expr]) -> None:
+        self.env = env
+
+    def visit_Name(self, node: ast.Name) -> ast.AST:
+        if isinstance(node.ctx, ast.Load) and node.id in self.env:
+            return copy.deepcopy(self.env[node.id])
+        return node
+
+
+def _bound_names(node: ast.AST) -> set[str]:
+    """Names bound inside an expression (comprehension targets, lambda parameters, walrus targets)."""
+    out: set[str] = set()
+    for n in ast.walk(node):
+        if isinstance(n, ast.comprehension):
+            out |= {t.id for t in ast.walk(n.target) if isinstance(t, ast.Name)}
+        elif isinstance(n, ast.Lambda):
+            out |= {a.arg for a in n.args.args + n.args.kwonlyargs + n.args.posonlyargs}
+        elif isinstance(n, ast.NamedExpr):
+            out.add(n.target.id)
+    return out
+
+
+def _module_funcs(tree: ast.Module) -> dict[str, ast.FunctionDef]:
+    seen: dict[str, int] = {}
+    out: dict[str, ast.FunctionDef] = {}
+    for n in tree.body:
+        if isinstance(n, ast.FunctionDef):
+            seen[n.name] = seen.get(n.name, 0) + 1
+            out[n.name] = n
+    return {k: v for k, v in out.items() if seen[k] == 1 and not v.decorator_list}
+
+
+def _function_as_expr(f: ast.FunctionDef) -> ast.expr | None:
+    """The value a *straight-line* helper returns, as one expression over its parameters: a body of single-target local
+    assignments followed by `return <expr>`; every local is inlined (each right-hand side is evaluated once and has no side
+    effect in the expressions handled here).  None if the body has any other shape."""
+    env: dict[str, ast.expr] = {}
+    params = {a.arg for a in f.args.args + f.args.kwonlyargs + f.args.posonlyargs}
+    body = _strip_doc(f)
+    for st in body[:-1]:
+        if isinstance(st, ast.AnnAssign) and isinstance(st.target, ast.Name) and st.value is not None:
+            tgt, val = st.target.id, st.value
+        elif isinstance(st, ast.Assign) and len(st.targets) == 1 and isinstance(st.targets[0], ast.Name):
+            tgt, val = st.targets[0].id, st.value
+        else:
+            return None
+        if tgt in params or tgt in _bound_names(val):
+            return None
+        env[tgt] = _Subst(env).visit(copy.deepcopy(val))
+    if not body or not isinstance(body[-1], ast.Return) or body[-1].value is None:
+        return None
+    ret = body[-1].value
+    if _bound_names(ret) & (set(env) | params):
+        return None
+    return _Subst(env).visit(copy.deepcopy(ret))
+
+
+def _resolve(tree: ast.Module, node: ast.expr, depth: int = 0) -> ast.expr:
+    """Semantic normalisation of a module-level expression before it is matched against a recognised form:
+
+    * a call `f(args)` of a function defined once at module level, undecorated, whose body is straight-line (local assignments,
+      then `return <expr>`) is replaced by that expression with the parameters substituted (positional, keyword and default
+      arguments; arguments must themselves be literals or resolvable names, so that evaluating them twice or never is harmless);
+    * a name bound once at module level to a string literal (a hoisted constant) is replaced by the literal.
+
+    Anything else is left as it is, so the caller's matcher stays fail-closed."""
+    if depth > 8:
+        raise TranslateError(f'tokenizer.py:{getattr(node, "lineno", "?")}: helper functions nested too deeply')
+    funcs = _module_funcs(tree)
+    bound = _bound_names(node)
+
+    class R(ast.NodeTransformer):
+        def visit_Call(self, n: ast.Call) -> ast.AST:
+            self.generic_visit(n)
+            if isinstance(n.func, ast.Name) and n.func.id in funcs:
+                f = funcs[n.func.id]
+                a = f.args
+                if a.vararg or a.kwarg or any(isinstance(x, ast.Starred) for x in n.args) or any(k.arg is None for k in n.keywords):
+                    return n
+                body = _function_as_expr(f)
+                if body is None:
+                    return n
+                pos = a.posonlyargs + a.args
+                env: dict[str, ast.expr] = {}
+                if len(n.args) > len(pos):
+                    return n
+                for p, v in zip(pos, n.args):
+                    env[p.arg] = v
+                for k in n.keywords:
+                    if k.arg in env or k.arg not in {x.arg for x in a.args + a.kwonlyargs}:
+                        return n
+                    env[k.arg] = k.value
+                for p, d in zip(reversed(pos), reversed(a.defaults)):
+                    env.setdefault(p.arg, d)
+                for p, d in zip(a.kwonlyargs, a.kw_defaults):
+                    if d is not None:
+                        env.setdefault(p.arg, d)
+                if set(env) != {x.arg for x in pos + a.kwonlyargs}:
+                    return n
+                if not all(isinstance(v, (ast.Constant, ast.Name)) for v in env.values()):
+                    return n
+                if _bound_names(body) & set(env):
+                    return n
+                return _resolve(tree, _Subst(env).visit(body), depth + 1)
+            return n
+
+        def visit_Name(self, n: ast.Name) -> ast.AST:
+            if isinstance(n.ctx, ast.Load) and n.id not in bound and n.id not in ('ESCAPES', 'ESCAPES_INV'):
+                try:
+                    v = _top_assign(tree, n.id)
+                except TranslateError:
+                    return n
+                if isinstance(v, ast.Constant) and isinstance(v.value, str):
+                    return ast.copy_location(ast.Constant(value=v.value), n)
+                if isinstance(v, (ast.Call, ast.BinOp, ast.JoinedStr)) and not (_bound_names(v) & bound):
+                    # a hoisted intermediate value (`_PATTERN = '|'.join(...)`): pure expressions of literals and of the tables
+                    return _resolve(tree, v, depth + 1)
+            return n
+
+        def visit_BinOp(self, n: ast.BinOp) -> ast.AST:
+            self.generic_visit(n)
+            if isinstance(n.op, ast.Add) and all(isinstance(x, ast.Constant) and isinstance(x.value, str) for x in (n.left, n.right)):
+                return ast.copy_location(ast.Constant(value=n.left.value + n.right.value), n)
+            return n
+
+    out = R().visit(copy.deepcopy(node))
+    return ast.fix_missing_locations(out)
+
+
 def _excl_of_regex(node: ast.expr, name: str) -> str:
     """`re.compile('|'.join(re.escape(c) for c in ESCAPES_INV if c not in K))` -> K."""
     consts = [n for n in ast.walk(node) if isinstance(n, ast.Constant) and isinstance(n.value, str)]
@@ -125,6 +256,7 @@ def _escape_pipeline(tree: ast.Module, inv_map: dict[str, str]) -> tuple[list[tu
 
     * kind ``'sub'``: ``R.sub(_escape_matcher, text)`` where ``R`` is a module-level regex of the recognised table form;
       ``a`` = its exclusion string (every other character of ESCAPES_INV is replaced by its table entry);
+    * kind ``'subn'``: the same substitution with a positive ``count`` (``b`` = ``chr(count)``): only the first matches are replaced;
     * kind ``'replace'``: ``text.replace(a, b)`` (Python semantics: non-overlapping, left to right, ``a`` non-empty);
       ``a``/``b`` are string literals or ``ESCAPES_INV[<literal>]``;
     * condition: always / only when ``multiline`` / only when not ``multiline`` (from ``A if multiline else B`` and from
@@ -145,7 +277,7 @@ def _escape_pipeline(tree: ast.Module, inv_map: dict[str, str]) -> tuple[list[tu
         if not isinstance(node, ast.Name):
             raise TranslateError(f'tokenizer.py:{node.lineno}: escape_text: regex is not a module-level name: `{ast.unparse(node)}`')
         if node.id not in regs:
-            regs[node.id] = _excl_of_regex(_top_assign(tree, node.id), node.id)
+            regs[node.id] = _excl_of_regex(_resolve(tree, _top_assign(tree, node.id)), node.id)
         return regs[node.id]
 
     def strval(node: ast.expr) -> str:
@@ -173,25 +305,94 @@ def _escape_pipeline(tree: ast.Module, inv_map: dict[str, str]) -> tuple[list[tu
             return c1
         return None
 
+    funcs = _module_funcs(tree)
+
+    def callback_ok(node: ast.expr) -> None:
+        """The substitution callback must be the table lookup `m -> ESCAPES_INV[<the matched text>]`: a module-level function
+        or a lambda whose (straight-line) body is ESCAPES_INV[m.group()] / ESCAPES_INV[m.group(0)] / ESCAPES_INV[m[0]]."""
+        if isinstance(node, ast.Name) and node.id in funcs:
+            f = funcs[node.id]
+            params, body = [a.arg for a in f.args.posonlyargs + f.args.args], _function_as_expr(f)
+            if f.args.kwonlyargs or f.args.vararg or f.args.kwarg:
+                body = None
+        elif isinstance(node, ast.Lambda):
+            params, body = [a.arg for a in node.args.posonlyargs + node.args.args], node.body
+        else:
+            params, body = [], None
+        if body is None or len(params) != 1:
+            raise TranslateError(f'tokenizer.py:{node.lineno}: escape_text: substitution callback `{ast.unparse(node)}` is not a recognisable function of the match')
+        m = params[0]
+        got = ast.unparse(body)
+        if got not in (f'ESCAPES_INV[{m}.group()]', f'ESCAPES_INV[{m}.group(0)]', f'ESCAPES_INV[{m}[0]]'):
+            raise TranslateError(f'tokenizer.py:{node.lineno}: escape_text: substitution callback computes `{got}`, not the table entry ESCAPES_INV[{m}.group()]')
+
+    def count_of(node: ast.expr) -> int:
+        """The `count` argument of sub(): a non-negative int literal, a module-level int constant, or an attribute of `re` whose
+        value is an integer (a flag constant that ended up in the count position): 0 = unlimited, n > 0 = the first n matches."""
+        if isinstance(node, ast.Constant) and type(node.value) is int and 0 <= node.value < 0x110000:
+            return node.value
+        if isinstance(node, ast.Attribute) and isinstance(node.value, ast.Name) and node.value.id == 're' and hasattr(re, node.attr):
+            v = getattr(re, node.attr)
+            if isinstance(v, int) and 0 <= int(v) < 0x110000:
+                return int(v)
+        if isinstance(node, ast.Name):
+            try:
+                v2 = _top_assign(tree, node.id)
+            except TranslateError:
+                v2 = None
+            if isinstance(v2, ast.Constant) and type(v2.value) is int and 0 <= v2.value < 0x110000:
+                return v2.value
+        raise TranslateError(f'tokenizer.py:{node.lineno}: escape_text: count argument `{ast.unparse(node)}` of sub() is not a constant the translator can evaluate')
+
+    def sub_call(node: ast.Call) -> tuple[ast.expr, ast.expr, ast.expr, int] | None:
+        """(regex, callback, string, count) of `R.sub(cb, s[, count])` / `re.sub(R, cb, s[, count])`, positional or keyword
+        arguments.  count 0 = every match; a positive count limits the substitution to the first matches (modelled as its own
+        kind of step, never a plain table substitution).  A flags argument is not modelled: fail closed."""
+        f = node.func
+        if not (isinstance(f, ast.Attribute) and f.attr == 'sub'):
+            return None
+        module_form = isinstance(f.value, ast.Name) and f.value.id == 're'
+        names = ['pattern', 'repl', 'string', 'count'] if module_form else ['repl', 'string', 'count']
+        got: dict[str, ast.expr] = {}
+        if any(isinstance(a, ast.Starred) for a in node.args) or any(k.arg is None for k in node.keywords):
+            raise TranslateError(f'tokenizer.py:{node.lineno}: escape_text: * / ** arguments in `{ast.unparse(node)}`')
+        if len(node.args) > len(names):
+            raise TranslateError(f'tokenizer.py:{node.lineno}: escape_text: `{ast.unparse(node)}` passes a flags argument to sub(); '
+                                 f'a flagged substitution is not modelled')
+        for nme, a in zip(names, node.args):
+            got[nme] = a
+        for k in node.keywords:
+            if k.arg not in names or k.arg in got:
+                raise TranslateError(f'tokenizer.py:{node.lineno}: escape_text: argument {k.arg}= of `{ast.unparse(node)}` is not modelled')
+            got[k.arg] = k.value
+        if set(got) | {'count'} != set(names):
+            raise TranslateError(f'tokenizer.py:{node.lineno}: escape_text: `{ast.unparse(node)}` lacks an argument')
+        cnt = count_of(got['count']) if 'count' in got else 0
+        return (got['pattern'] if module_form else f.value), got['repl'], got['string'], cnt
+
     def steps_of(node: ast.expr, cond: int) -> list[tuple[int, str, str, str]]:
         """Steps that compute `node` from the current value of the text variable."""
         if isinstance(node, ast.Name) and node.id == tvar:
             return []
-        if isinstance(node, ast.Call) and isinstance(node.func, ast.Attribute) and not node.keywords:
+        if isinstance(node, ast.Call) and isinstance(node.func, ast.Attribute):
             f = node.func
-            if f.attr == 'sub' and len(node.args) == 2 and isinstance(node.args[0], ast.Name) and node.args[0].id == '_escape_matcher':
-                inner = steps_of(node.args[1], cond)
-                if isinstance(f.value, ast.IfExp):
-                    c = cond_of(f.value.test)
+            sc = sub_call(node)
+            if sc is not None:
+                rx_node, cb, arg, cnt = sc
+                callback_ok(cb)
+                inner = steps_of(arg, cond)
+                kind, carg = ('sub', '') if cnt == 0 else ('subn', chr(cnt))       # the count travels as the one "character" of b
+                if isinstance(rx_node, ast.IfExp):
+                    c = cond_of(rx_node.test)
                     other = C_SINGLE if c == C_MULTI else C_MULTI
                     out = list(inner)
-                    for cc, rx in ((c, f.value.body), (other, f.value.orelse)):
+                    for cc, rx in ((c, rx_node.body), (other, rx_node.orelse)):
                         k = both(cond, cc)
                         if k is not None:
-                            out.append((k, 'sub', regex(rx), ''))
+                            out.append((k, kind, regex(rx), carg))
                     return out
-                return inner + [(cond, 'sub', regex(f.value), '')]
-            if f.attr == 'replace' and len(node.args) == 2:
+                return inner + [(cond, kind, regex(rx_node), carg)]
+            if f.attr == 'replace' and len(node.args) == 2 and not node.keywords:
                 old, new = strval(node.args[0]), strval(node.args[1])
                 if not old:
                     raise TranslateError(f'tokenizer.py:{node.lineno}: escape_text: str.replace with an empty pattern is not modelled')
@@ -201,7 +402,20 @@ def _escape_pipeline(tree: ast.Module, inv_map: dict[str, str]) -> tuple[list[tu
     def neg(c: int) -> int:
         return C_SINGLE if c == C_MULTI else C_MULTI
 
-    def block(stmts: list[ast.stmt], live: int | None) -> tuple[list[tuple[int, str, str, str]], int | None]:
+    local_env: dict[str, ast.expr] = {}
+    assigned: dict[str, int] = {}
+    for x in ast.walk(e):
+        if isinstance(x, ast.Name) and isinstance(x.ctx, (ast.Store, ast.Del)):
+            assigned[x.id] = assigned.get(x.id, 0) + 1
+
+    def local_target(st: ast.stmt) -> str | None:
+        tg = st.targets[0] if isinstance(st, ast.Assign) and len(st.targets) == 1 else st.target if isinstance(st, ast.AnnAssign) and st.value is not None else None
+        return tg.id if isinstance(tg, ast.Name) and tg.id not in (tvar, mvar) else None
+
+    def subst(node: ast.expr) -> ast.expr:
+        return ast.fix_missing_locations(_Subst(local_env).visit(copy.deepcopy(node))) if local_env else node
+
+    def block(stmts: list[ast.stmt], live: int | None, top: bool = False) -> tuple[list[tuple[int, str, str, str]], int | None]:
         """Steps of a statement list entered under condition `live`; second component: the condition under which control
         falls out of its end (None = every path returned)."""
         out: list[tuple[int, str, str, str]] = []
@@ -209,10 +423,18 @@ def _escape_pipeline(tree: ast.Module, inv_map: dict[str, str]) -> tuple[list[tu
             if live is None:
                 raise TranslateError(f'tokenizer.py:{st.lineno}: escape_text: statement after a return on every path')
             if isinstance(st, ast.Return) and st.value is not None:
-                out += steps_of(st.value, live)
+                out += steps_of(subst(st.value), live)
                 live = None
             elif isinstance(st, ast.Assign) and len(st.targets) == 1 and isinstance(st.targets[0], ast.Name) and st.targets[0].id == tvar:
-                out += steps_of(st.value, live)
+                out += steps_of(subst(st.value), live)
+            elif top and isinstance(st, (ast.Assign, ast.AnnAssign)) and local_target(st) is not None:
+                # a single-assignment local that does not depend on the text (e.g. `pattern = A if multiline else B`): inlined
+                nme = local_target(st)
+                val = subst(st.value)
+                if nme in local_env or assigned.get(nme, 0) != 1 or any(isinstance(x, ast.Name) and x.id == tvar for x in ast.walk(val)) \
+                        or any(isinstance(x, (ast.Call, ast.NamedExpr, ast.Await, ast.Yield)) for x in ast.walk(val)):
+                    raise TranslateError(f'tokenizer.py:{st.lineno}: escape_text: local `{nme}` is not a single-assignment, call-free expression independent of the text')
+                local_env[nme] = val
             elif isinstance(st, ast.If):
                 c = cond_of(st.test)
                 lives = []
@@ -233,7 +455,7 @@ def _escape_pipeline(tree: ast.Module, inv_map: dict[str, str]) -> tuple[list[tu
                 raise TranslateError(f'tokenizer.py:{st.lineno}: escape_text: unrecognised statement `{ast.unparse(st).splitlines()[0]}`')
         return out, live
 
-    pipeline, live_end = block(_strip_doc(e), C_ALWAYS)
+    pipeline, live_end = block(_strip_doc(e), C_ALWAYS, top=True)
     if live_end is not None:
         raise TranslateError('escape_text: a path reaches the end of the body without `return <expr>`')
     return pipeline, regs
@@ -272,11 +494,6 @@ def translate() -> tuple[str, dict]:
     _expect(inv, '{char: f' + repr(prefix + '{sym}') + ' for sym, char in ESCAPES.items()}', 'ESCAPES_INV', inv.lineno)
 
     # ---- escape_text as a pipeline of whole-string steps (see _escape_pipeline)
-    m = _func(tree, '_escape_matcher')
-    mb = _strip_doc(m)
-    if len(mb) != 1 or not isinstance(mb[0], ast.Return) or len(m.args.args) != 1:
-        raise TranslateError('_escape_matcher: unrecognised body')
-    _expect(mb[0].value, f'ESCAPES_INV[{m.args.args[0].arg}.group()]', '_escape_matcher', m.lineno)
     inv_map: dict[str, str] = {}
     for sym, ch in esc_table:
         inv_map[chr(ch)] = prefix + chr(sym)          # dict comprehension: a later symbol for the same character wins
@@ -356,9 +573,10 @@ def translate() -> tuple[str, dict]:
         '(* escape_text(text, multiline) as whole-string steps applied in order: (condition, kind, a, b);',
         '   condition 0 = always, 1 = only if multiline, 2 = only if not multiline;',
         '   kind 0 = R.sub(_escape_matcher, text) with a = characters of ESCAPES_INV the regex R leaves alone,',
-        '   kind 1 = text.replace(a, b) *)',
+        '   kind 1 = text.replace(a, b),',
+        '   kind 2 = the substitution of kind 0 limited to its first n matches, b = [n] *)',
         'Definition esc_pipeline : list (N * N * list N * list N) := ['
-        + '; '.join(f'({c}, {0 if k == "sub" else 1}, {_coq_ns(map(ord, a))}, {_coq_ns(map(ord, b))})' for c, k, a, b in pipeline) + '].',
+        + '; '.join(f'({c}, {dict(sub=0, replace=1, subn=2)[k]}, {_coq_ns(map(ord, a))}, {_coq_ns(map(ord, b))})' for c, k, a, b in pipeline) + '].',
         f'Definition bare_disallowed : list N := {_coq_ns(bare)}.',
         '(* _OPERATORS: (character, Token value) *)',
         f'Definition operators : list (N * N) := {_coq_pairs(ops.items())}.',
@@ -375,7 +593,7 @@ def translate() -> tuple[str, dict]:
     lines.append('')
 
     side.update(escapes=[[chr(s), chr(c)] for s, c in esc_table], esc_prefix=prefix,
-                escape_pipeline=[{'when': ['always', 'multiline', 'not multiline'][c], 'kind': k, 'a': a, 'b': b} for c, k, a, b in pipeline], regexes=regs,
+                escape_pipeline=[{'when': ['always', 'multiline', 'not multiline'][c], 'kind': k, 'a': a, 'b': (ord(b) if k == 'subn' else b)} for c, k, a, b in pipeline], regexes=regs,
                 bare_disallowed=''.join(chr(c) for c in bare), operators={chr(k): v for k, v in ops.items()},
                 token_values=tok_vals, has_value=has_value, option_defaults=defaults, digests=digests,
                 casefold_entries=len(cf), pyx_twin=_scan_pyx())
